@@ -27,6 +27,8 @@ def cells(tier):
     out.append(cell("s2 A2|M2/1 cancelM0", sc, MON))
     sc = scen(pool(2), [[A("A", 2)], [["cancel", rid("A", 1), {"msg": "why"}]], [P]], outcomes=["ret"], ecb="plain", ccb="plain")
     out.append(cell("s2 A2 cancel1(msg)", sc, MON))
+    sc = scen([pool(2), pool(2)], [[A("A", 2)], [A("B", 2, p=1)], [["probe_cancel", L, {"p": 1}]]], outcomes=["ret"], ecb="plain", ccb="plain")
+    out.append(cell("two pools s2/2 A2|B2@1 probe@1", sc, MON))
     sc = scen(pool(1), [[A("A", 2)], [FLUSH], [P]], outcomes=["ret", "exc"])
     out.append(cell("s1 A2 flush nocb", sc, MON))
     sc = scen(pool(2, "SimpleTaskPool", ecb="plain", ccb="plain"), [[S("S", 3)], [["stop", 1]], [P]], outcomes=["ret"])
